@@ -4,12 +4,14 @@
   theme_build  <theme> <background> <font_size> <font_family> <local_id or -> <n> class×n <m> element×m
       → ok <#defs> def… style…            (build: pattern classes in sorted order)
   theme_build_unsorted  (same arguments)   (buildUnsorted: pattern classes in the given order)
+  auto_style_text <debug> <n> def×n <m> style×m → ok <defs block> <style block>   (Theme.Inject)
   theme_key <rule text> → some <class> | none     (the spec-side `keyOf`)
   theme_urls <text> → url(#id) references…        (the spec-side `urlRefs`)
   an unknown theme name or an unparsable font size gives `err`.
 -/
 import Driver.Codec
 import Svgdx.Theme.Build
+import Svgdx.Theme.Inject
 namespace Driver
 open Svgdx Theme
 
@@ -39,6 +41,22 @@ def handleTheme (op : Str) (args : List Str) : Option String :=
         if op == cs!"theme_build" then build cfg classes elements else buildUnsorted cfg classes elements
       some (joinFields ([cs!"ok", Str.natToStr defs.length] ++ defs ++ styles))
     | none => some "err"
+  else if op == cs!"auto_style_text" then
+    -- auto_style_text <debug 0|1> <n> def×n <m> style×m → ok <defs block as written, before the reader pass> <style block as written>
+    match args with
+    | dbg :: n :: rest =>
+      let n := Num.digitsToNat n
+      let defs := rest.take n
+      match rest.drop n with
+      | m :: rest2 =>
+        if rest2.length == Num.digitsToNat m then
+          let debug := dbg == ['1']
+          some (joinFields [cs!"ok",
+            (if defs.isEmpty then [] else defsBlock debug defs),
+            (if rest2.isEmpty then [] else Xml.write (styleEvents debug rest2))])
+        else none
+      | [] => none
+    | _ => none
   else if op == cs!"theme_key" then
     match args with
     | [r] => some (match keyOf r with
